@@ -67,6 +67,8 @@ def gen_step(rng, i):
     step = {'i': i, 'assert': a, 'kind': rng.choice(KINDS), 'ref_state': rng.choice(['match', 'match', 'differ', 'missing']),
             'ref': 'ref%d.%s' % (i, {'string': 'txt', 'textfile': 'txt', 'textfiles': 'txt', 'binary': 'bin', 'df_parquet': 'parquet',
                                      'df_csv': 'csv', 'ondisk': 'parquet'}[a])}
+    if step['ref'].endswith('.parquet') and rng.random() < 0.25:
+        step['ref'] = step['ref'][:-len('parquet')] + rng.choice(['PARQUET', 'Parquet'])      # the extension's case does not change the format
     if a in ('string', 'textfile'):
         step['actual'] = gen_text(rng) if rng.random() < 0.5 else rng.choice(TEXTS) + '#%d\n' % rng.randrange(1000)
     elif a == 'textfiles':
